@@ -51,6 +51,26 @@ CHECKS = {
         design_ref="DESIGN.md §5 C07",
         note="Trusted: TLC, structural snapshot function. Supertypes compared for variable-free instantiations only.",
     ),
+    "C09": dict(
+        category="model_checking",
+        technique="contracts of the searches as TLA+ predicates over the declarative relation (HTypeOps); TLC-generated tables and queries; "
+                  "real find_subtypes / find_irrelevant_type executed under an exhaustive choice oracle; TLC validates every returned type",
+        text="For tables of the HTypesGen family and query types from their universes, both searches are run over every outcome of their "
+             "random choices (depth-first over the choice tree up to a leaf budget, sampled beyond) in all (include_self, concrete_only) "
+             "settings; TLC judges every distinct returned type: usable, subtype of the query / unrelated to it, self included exactly on request.",
+        design_ref="DESIGN.md §5 C09",
+        note="Trusted: TLC, term conversion, the choice oracle. Known findings keyed by spec shape predicates (InOverProjection, "
+             "DependentParam, TextualSupertypes); other shapes are reported.",
+    ),
+    "C10": dict(
+        category="model_checking",
+        technique="unifier contract in TLA+ (HUnify: substitute back, match up to open variables within bounds); TLC-generated tables, targets "
+                  "and patterns; every non-empty result of the real unify_types validated by TLC",
+        text="Every (target, pattern) pair of universe x 26 patterns (repeated, bounded, projected, nested variables) x both modes per table; "
+             "each non-empty assignment is substituted back by TLC and compared with the target or one of its supertypes, bounds checked.",
+        design_ref="DESIGN.md §5 C10",
+        note="Trusted: TLC, term conversion. One-directional (only non-empty results are constrained), as the property states.",
+    ),
 }
 
 NOT_YET = "check not built yet (work in progress in this session; see DESIGN.md §10 for the order of work)"
